@@ -202,7 +202,8 @@ def e3(repo):
 
     # --- first-character dispatch of `lex`
     body = extract.fn_body(src, "lex")
-    arms_txt, _, _ = inner_match(body, r"cur_char\s*\.\s*unwrap\s*\(\s*\)")
+    # `match cur_char.unwrap() {` or, after a `while let Some(x) = …` rewrite, `match x {`: what counts is the three arms checked below
+    arms_txt, _, _ = inner_match(body, r"(?:cur_char\s*\.\s*unwrap\s*\(\s*\)|\*?\w+)")
     arms = match_arms(arms_txt)
     want = ["self.read_word(&mut chars)", "self.read_number(&mut chars)", "self.read_symbol(&mut chars)"]
     got = [re.sub(r"\s+", "", e) for _, e in arms]
@@ -214,7 +215,7 @@ def e3(repo):
     # --- continuation classes of read_word / read_number
     def cont_class(fn, var):
         b = extract.fn_body(src, fn)
-        t, _, _ = inner_match(b, r"next\s*\.\s*unwrap\s*\(\s*\)\s*\.\s*1")
+        t, _, _ = inner_match(b, r"(?:next\s*\.\s*unwrap\s*\(\s*\)\s*\.\s*1|\*?\w+)")
         a = match_arms(t)
         if len(a) != 2 or a[1][0] != "_" or a[1][1] != "break":
             raise ValueError("%s: unexpected loop shape" % fn)
@@ -224,10 +225,10 @@ def e3(repo):
     word_cont = cont_class("read_word", "word")
     num_cont = cont_class("read_number", "number")
     b = extract.fn_body(src, "read_number")
-    if not re.search(r"self\s*\.\s*create_token\s*\(\s*pos\s*,\s*TokenType\s*::\s*NumericLiteral\s*,\s*number\s*\)", b):
+    if not re.search(r"self\s*\.\s*create_token\s*\(\s*\w+\s*,\s*TokenType\s*::\s*NumericLiteral\s*,\s*number\s*\)", b):
         raise ValueError("read_number no longer creates NumericLiteral from the swallowed text")
     b = extract.fn_body(src, "read_word")
-    if not re.search(r"self\s*\.\s*create_word_token\s*\(\s*pos\s*,\s*word\s*\)", b):
+    if not re.search(r"self\s*\.\s*create_word_token\s*\(\s*\w+\s*,\s*word\s*\)", b):
         raise ValueError("read_word no longer classifies through create_word_token")
 
     # --- read_symbol
